@@ -4,4 +4,7 @@
 impl SignedEntry {
     #[verifier::external_body]
     pub fn key(&self) -> (r: &[u8]) ensures r@ == self@.id.key { unimplemented!() }
+    /// src/sync.rs `SignedEntry::author(&self) -> AuthorId` (`self.entry().id().author()`, a plain getter; not examined)
+    #[verifier::external_body]
+    pub fn author(&self) -> (r: AuthorId) ensures r.0@ == self@.id.author { unimplemented!() }
 }
